@@ -92,35 +92,99 @@ func (se *SignalEnum) verifyValueName(name string) error {
 	return nil
 }
 
-func (se *SignalEnum) verifyValueIndex(index int) error {
-	if err := se.valueIndexes.verifyKeyUnique(index); err != nil {
-		return err
+func calcEnumSize(minSize, maxIndex int) int {
+	maxIdxSize := calcSizeFromValue(maxIndex)
+	if minSize > maxIdxSize {
+		return minSize
+	}
+	return maxIdxSize
+}
+
+// verifySize checks whether all the signals that reference the enum
+// can change their size to the given one.
+func (se *SignalEnum) verifySize(newSize int) error {
+	amount := newSize - se.GetSize()
+	if amount == 0 {
+		return nil
 	}
 
-	if index > se.maxIndex {
-		prevSize := se.GetSize()
-		newSize := calcSizeFromValue(index)
+	for _, tmpSig := range se.refs.entries() {
+		if err := tmpSig.verifySizeAmount(amount); err != nil {
+			se.parErrID = tmpSig.entityID
+			return err
+		}
+	}
 
-		for _, tmpSig := range se.refs.entries() {
-			if tmpSig.hasParentMsg() {
-				if err := tmpSig.parentMsg.verifySignalSizeAmount(tmpSig.entityID, newSize-prevSize); err != nil {
-					se.parErrID = tmpSig.entityID
-					return &ValueIndexError{
-						Index: index,
-						Err:   err,
-					}
-				}
-			}
+	return nil
+}
 
-			if tmpSig.hasParentMuxSig() {
-				if err := tmpSig.parentMuxSig.verifySignalSizeAmount(tmpSig.entityID, newSize-prevSize); err != nil {
-					se.parErrID = tmpSig.entityID
-					return &ValueIndexError{
-						Index: index,
-						Err:   err,
-					}
-				}
-			}
+// modifySize makes room for the given new size in the layouts of all the signals
+// that reference the enum. It must be called after verifySize and before
+// the size of the enum actually changes.
+func (se *SignalEnum) modifySize(newSize int) {
+	amount := newSize - se.GetSize()
+	if amount == 0 {
+		return
+	}
+
+	for _, tmpSig := range se.refs.entries() {
+		if err := tmpSig.modifySize(amount); err != nil {
+			panic(err)
+		}
+	}
+}
+
+// regenerateFilters regenerates the filters of the layouts of all the signals
+// that reference the enum. It must be called after the size of the enum changed.
+func (se *SignalEnum) regenerateFilters() {
+	for _, tmpSig := range se.refs.entries() {
+		tmpSig.regenerateFilters()
+	}
+}
+
+// getMaxIndexWith returns the max index the enum would have
+// if the given value had the given index.
+func (se *SignalEnum) getMaxIndexWith(value *SignalEnumValue, index int) int {
+	currMax := 0
+	if index > currMax {
+		currMax = index
+	}
+
+	for _, tmpVal := range se.values.entries() {
+		if tmpVal.entityID == value.entityID {
+			continue
+		}
+
+		if tmpVal.index > currMax {
+			currMax = tmpVal.index
+		}
+	}
+
+	return currMax
+}
+
+// verifyValueIndex checks whether the given value can take the given index.
+// The value can already be part of the enum (update of the index) or not (addition).
+func (se *SignalEnum) verifyValueIndex(value *SignalEnumValue, index int) error {
+	if index < 0 {
+		return &ValueIndexError{
+			Index: index,
+			Err:   ErrIsNegative,
+		}
+	}
+
+	if err := se.valueIndexes.verifyKeyUnique(index); err != nil {
+		return &ValueIndexError{
+			Index: index,
+			Err:   err,
+		}
+	}
+
+	newSize := calcEnumSize(se.minSize, se.getMaxIndexWith(value, index))
+	if err := se.verifySize(newSize); err != nil {
+		return &ValueIndexError{
+			Index: index,
+			Err:   err,
 		}
 	}
 
@@ -128,34 +192,14 @@ func (se *SignalEnum) verifyValueIndex(index int) error {
 }
 
 func (se *SignalEnum) modifyValueIndex(value *SignalEnumValue, newIndex int) {
-	gtMaxIndex := false
-	if maxSize > se.maxIndex {
-		gtMaxIndex = true
-	}
+	newMaxIndex := se.getMaxIndexWith(value, newIndex)
 
-	updateMaxIdx := false
-	if value.index == se.maxIndex && newIndex < se.maxIndex {
-		updateMaxIdx = true
-	}
+	se.modifySize(calcEnumSize(se.minSize, newMaxIndex))
+	se.maxIndex = newMaxIndex
 
-	if gtMaxIndex || updateMaxIdx {
-		amount := calcSizeFromValue(newIndex) - se.GetSize()
+	se.valueIndexes.modifyKey(value.index, newIndex, value.entityID)
 
-		for _, tmpSig := range se.refs.entries() {
-			if err := tmpSig.modifySize(amount); err != nil {
-				panic(err)
-			}
-		}
-
-		if gtMaxIndex {
-			se.maxIndex = newIndex
-		} else {
-			se.setMaxIndex()
-		}
-	}
-
-	oldIndex := value.index
-	se.valueIndexes.modifyKey(oldIndex, newIndex, value.entityID)
+	se.regenerateFilters()
 }
 
 func (se *SignalEnum) setMaxIndex() {
@@ -222,7 +266,7 @@ func (se *SignalEnum) AddValue(value *SignalEnumValue) error {
 		Name:     value.name,
 	}
 
-	if err := se.verifyValueIndex(value.index); err != nil {
+	if err := se.verifyValueIndex(value, value.index); err != nil {
 		addValErr.Err = err
 		return se.errorf(addValErr)
 	}
@@ -234,6 +278,7 @@ func (se *SignalEnum) AddValue(value *SignalEnumValue) error {
 
 	index := value.index
 	if index > se.maxIndex {
+		se.modifySize(calcEnumSize(se.minSize, index))
 		se.maxIndex = index
 	}
 
@@ -242,6 +287,8 @@ func (se *SignalEnum) AddValue(value *SignalEnumValue) error {
 	se.valueIndexes.add(value.index, value.entityID)
 
 	value.setParentEnum(se)
+
+	se.regenerateFilters()
 
 	return nil
 }
@@ -271,6 +318,7 @@ func (se *SignalEnum) RemoveValue(valueEntityID EntityID) error {
 
 	if wasMaxIndex {
 		se.setMaxIndex()
+		se.regenerateFilters()
 	}
 
 	return nil
@@ -285,6 +333,10 @@ func (se *SignalEnum) RemoveAllValues() {
 	se.values.clear()
 	se.valueNames.clear()
 	se.valueIndexes.clear()
+
+	se.maxIndex = 0
+
+	se.regenerateFilters()
 }
 
 // Values returns a slice of all the enum values of the [SignalEnum].
@@ -310,11 +362,7 @@ func (se *SignalEnum) GetValue(valueEntityID EntityID) (*SignalEnumValue, error)
 
 // GetSize returns the size of the [SignalEnum] in bits.
 func (se *SignalEnum) GetSize() int {
-	maxIdxSize := calcSizeFromValue(se.maxIndex)
-	if se.minSize > maxIdxSize {
-		return se.minSize
-	}
-	return maxIdxSize
+	return calcEnumSize(se.minSize, se.maxIndex)
 }
 
 // MaxIndex returns the highest index of the enum values of the [SignalEnum].
@@ -324,8 +372,22 @@ func (se *SignalEnum) MaxIndex() int {
 
 // SetMinSize sets the minimum size in bit of the [SignalEnum].
 // By defaul it is set to 1.
-func (se *SignalEnum) SetMinSize(minSize int) {
+//
+// It returns a [SignalSizeError] if one of the signals that reference
+// the enum cannot change its size accordingly.
+func (se *SignalEnum) SetMinSize(minSize int) error {
+	newSize := calcEnumSize(minSize, se.maxIndex)
+
+	if err := se.verifySize(newSize); err != nil {
+		return se.errorf(err)
+	}
+
+	se.modifySize(newSize)
 	se.minSize = minSize
+
+	se.regenerateFilters()
+
+	return nil
 }
 
 // MinSize return the minimum size of the [SignalEnum] in bits.
@@ -432,7 +494,7 @@ func (sev *SignalEnumValue) UpdateIndex(newIndex int) error {
 	}
 
 	if sev.hasParentEnum() {
-		if err := sev.parentEnum.verifyValueIndex(newIndex); err != nil {
+		if err := sev.parentEnum.verifyValueIndex(sev, newIndex); err != nil {
 			return sev.errorf(&UpdateIndexError{Err: err})
 		}
 
